@@ -6,6 +6,7 @@ import (
 	"encoding/hex"
 	"encoding/json"
 	"fmt"
+	"github.com/akrennmair/updog/zzverif/vsched"
 	"os"
 	"os/exec"
 	"path/filepath"
@@ -304,7 +305,74 @@ func c16Read(ctx *rt.Ctx, hist []string) (viol string, key string) {
 
 var c16Seq int
 
+// c16ConcScenario: two writers (different rows) flush to ONE path that does not exist yet, on two goroutines under the
+// controlled scheduler (scheduling points at every file-system operation of updog, at bbolt's locks and at updog's own
+// locks). The path comes into existence during one of the two calls; for the other call it "already exists": that call
+// must fail and must leave the winner's file alone. Afterwards the file is the complete index of exactly one writer.
+func c16ConcScenario(ctx *rt.Ctx, rows int, outcome *string) vsched.Scenario {
+	seq := 0
+	mk := func(tag string) []model.Row {
+		var rs []model.Row
+		for i := 0; i < rows; i++ {
+			rs = append(rs, model.Row{"w": tag, "i": strconv.Itoa(i)})
+		}
+		return rs
+	}
+	data := [2][]model.Row{mk("A"), mk("B")}
+	return func() ([]func(), func(*vsched.Result) string) {
+		seq++
+		dir := filepath.Join(ctx.Scratch, fmt.Sprintf("conc-%d", seq))
+		os.MkdirAll(dir, 0o755)
+		out := filepath.Join(dir, "out.updog")
+		var errs [2]error
+		var bodies []func()
+		for t := 0; t < 2; t++ {
+			t := t
+			w := updog.NewIndexWriter(out)
+			for _, r := range data[t] {
+				w.AddRow(r)
+			}
+			bodies = append(bodies, func() { errs[t] = w.Flush() })
+		}
+		check := func(r *vsched.Result) string {
+			defer os.RemoveAll(dir)
+			ok := 0
+			winner := -1
+			for t, e := range errs {
+				if e == nil {
+					ok++
+					winner = t
+				}
+			}
+			if ok != 1 {
+				return fmt.Sprintf("%d of the two Flush calls to one path succeeded (errors: %v / %v)", ok, errs[0], errs[1])
+			}
+			idx, err := ix.Open(out, false, nil)
+			if err != nil {
+				return fmt.Sprintf("writer %d's Flush succeeded, the other one failed (%v), but afterwards the file does not open: %v", winner, errs[1-winner], err)
+			}
+			defer idx.Close()
+			if _, msg := c05Probes(model.FromRows(data[winner]), idx, true, nil); msg != "" {
+				return fmt.Sprintf("writer %d's Flush succeeded, the other one failed, but the file is not writer %d's index: %s", winner, winner, msg)
+			}
+			*outcome = fmt.Sprintf("winner=%d", winner)
+			return ""
+		}
+		return bodies, check
+	}
+}
+
 func c16Worker(ctx *rt.Ctx, job *rt.Job) []*rt.Violation {
+	if job.Name == "conc-flush" || job.Name == "replay" {
+		var j e3Job
+		job.Decode(&j)
+		var p struct {
+			Rows int `json:"rows"`
+		}
+		json.Unmarshal(j.Params, &p)
+		var outcome string
+		return e3Explore(ctx, "C16", j, c16ConcScenario(ctx, p.Rows, &outcome), func() string { return outcome })
+	}
 	var a struct {
 		Depth  int `json:"depth"`
 		Writer int `json:"writer"`
@@ -399,8 +467,25 @@ func c16Run(ctx *rt.Ctx) []*rt.Violation {
 			jobs = append(jobs, rt.Job{Name: "read", Shard: s, NShards: 8, Args: b})
 		}
 	}
+	// two concurrent Flush calls to one fresh path: every interleaving with at most 2 (thorough: 3) preemptions
+	var conc []rt.Job
+	for _, rows := range []int{0, 3} {
+		pb, _ := json.Marshal(map[string]int{"rows": rows})
+		bound, shards := 2, 4
+		if ctx.Thorough() {
+			bound, shards = 3, 8
+		}
+		for sh := 0; sh < shards; sh++ {
+			b, _ := json.Marshal(e3Job{Scenario: "conc-flush", Params: pb, Bound: bound, Shard: sh, NShards: shards})
+			conc = append(conc, rt.Job{Name: "conc-flush", Shard: sh, NShards: shards, Args: b})
+		}
+	}
+	done := make(chan []rt.JobOutcome)
+	go func() { done <- rt.RunJobs(ctx, conc, rt.SpawnOpt{Race: true}) }()
 	outs := rt.RunJobs(ctx, jobs, rt.SpawnOpt{})
 	vs = append(vs, rt.Collect(ctx, outs, nil)...)
+	vs = append(vs, rt.Collect(ctx, <-done, nil)...)
+	ctx.Cov.Note("concurrent_flush", "two IndexWriters with different rows (0 and 3 rows each) Flush to one fresh path on two goroutines under the controlled scheduler, scheduling points at every file-system operation of updog (package os re-exported with points), at bbolt's locks and updog's locks; every schedule within the preemption bound: exactly one call succeeds, the other fails, and the file is the winner's complete index")
 	ctx.Cov.Note("rule", fmt.Sprintf("clobber: 9 pre-existing contents (empty, valid index, a valid index with the row count and schema of the new one but other bitmaps, arbitrary bytes, read-only index, bbolt database without buckets, bbolt database with a foreign bucket, dangling symlink into an existing directory, symlink to an index) x 3 writer sizes x {IndexWriter.Flush, updog create, updog create -b}: must fail and leave SHA-256/size/mode (and link target) unchanged; 'appears': for every write k of Flush another actor exclusively creates the output path at that moment - if it succeeds Flush must fail and leave that file alone; read: every enabled history up to depth %d over {4 open variants, 4 queries, GetSchema, Close} on copies of valid 1200-row indexes written by each of the three writer paths: SHA-256/size/mode compared after every step; non-trivial = clobber cases and read histories of length >= 3", depth))
 	return vs
 }
@@ -409,6 +494,9 @@ func c16Replay(ctx *rt.Ctx, v *rt.Violation) *rt.Violation {
 	var c c16Case
 	if err := json.Unmarshal(v.Case, &c); err != nil {
 		rt.Harnessf("case: %v", err)
+	}
+	if v.Kind == "schedule" {
+		return e3Replay(ctx, "C16", v)
 	}
 	if c.Kind == "clobber" {
 		if m := c16Clobber(ctx, c); m != "" {
